@@ -99,6 +99,7 @@ WithClosureParam(body) == Call(Fn(<<P(301, TFn(<<TInt>>, TInt))>>, TInt, <<Ex(bo
 \* call of a function literal with one int parameter
 Lam1(arg) == Call(Fn(<<P(302, TInt)>>, TInt, <<Ex(Bin("+", V(302), I(1)))>>), <<arg>>)
 Thunk(ret, body) == Call(Fn(<<>>, ret, body), <<>>)
+SetG0 == <<Asg("=", V(GG), I(2))>>
 LocalFn == DefC(310, TNone, Fn(<<P(311, TInt)>>, TInt, <<Ex(Bin("*", V(311), I(2)))>>))
 
 \* the mismatch table: a sequence, so that records of different shapes are never compared
@@ -136,13 +137,23 @@ MM == <<
   EM("ret-explicit", "int", Thunk(TInt, <<Ret(St("s"))>>), Thunk(TInt, <<Ret(I(1))>>), "ret-type"),
   EM("ret-branch", "int", Thunk(TInt, <<Ex(If1(Bo(TRUE), <<Ret(St("s"))>>)), Ex(I(2))>>),
      Thunk(TInt, <<Ex(If1(Bo(TRUE), <<Ret(I(1))>>)), Ex(I(2))>>), "ret-type"),
+  EM("ret-elif-branch", "int", Thunk(TInt, <<Ex(If(<<ArmC(Bo(FALSE), SetG0), ArmC(Bo(TRUE), <<Ret(St("s"))>>)>>)), Ex(I(2))>>),
+     Thunk(TInt, <<Ex(If(<<ArmC(Bo(FALSE), SetG0), ArmC(Bo(TRUE), <<Ret(I(1))>>)>>)), Ex(I(2))>>), "ret-type"),
+  EM("ret-if-else", "int", Thunk(TInt, <<Ex(If2(Bo(TRUE), <<Ret(St("s"))>>, SetG0)), Ex(I(2))>>),
+     Thunk(TInt, <<Ex(If2(Bo(TRUE), <<Ret(I(1))>>, SetG0)), Ex(I(2))>>), "ret-type"),
+  EM("ret-else-branch", "int", Thunk(TInt, <<Ex(If2(Bo(TRUE), SetG0, <<Ret(St("s"))>>)), Ex(I(2))>>),
+     Thunk(TInt, <<Ex(If2(Bo(TRUE), SetG0, <<Ret(I(1))>>)), Ex(I(2))>>), "ret-type"),
+  EM("ret-loop", "int", Thunk(TInt, <<Loop(Bo(TRUE), <<Ret(St("s"))>>), Ex(I(2))>>),
+     Thunk(TInt, <<Loop(Bo(TRUE), <<Ret(I(1))>>), Ex(I(2))>>), "ret-type"),
+  EM("ret-case-arm", "int", Thunk(TInt, <<Ex(CaseE(Var0("E", "Y"), <<CArm("Y", <<Ret(St("s"))>>)>>, SetG0)), Ex(I(2))>>),
+     Thunk(TInt, <<Ex(CaseE(Var0("E", "Y"), <<CArm("Y", <<Ret(I(1))>>)>>, SetG0)), Ex(I(2))>>), "ret-type"),
+  EM("ret-block", "int", Thunk(TInt, <<Block(<<Ret(St("s"))>>), Ex(I(2))>>), Thunk(TInt, <<Block(<<Ret(I(1))>>), Ex(I(2))>>), "ret-type"),
   EM("field-init", "int", Fld(BlobL("FI", <<FI("v", St("s"))>>), "v"), Fld(BlobL("FI", <<FI("v", I(1))>>), "v"), "field-type"),
   EM("list-int-str", "list", Lst(<<I(1), St("a")>>), Lst(<<I(1), I(2)>>), "list-homogeneous"),
   EM("list-int-float", "list", Lst(<<I(1), Fl(4, 1)>>), Lst(<<I(1), I(2)>>), "list-homogeneous"),
   EM("call-int-literal", "int", Call(I(1), <<I(2)>>), Call(V(GInc), <<I(2)>>), "callee-function"),
   EM("call-int-var", "int", Call(V(GG), <<>>), V(GG), "callee-function"),
   EM("ifexpr-cond-int", "int", If2(I(1), <<Ex(I(1))>>, <<Ex(I(2))>>), If2(Bo(TRUE), <<Ex(I(1))>>, <<Ex(I(2))>>), "cond-bool"),
-  EM("ifexpr-branches", "int", If2(Bo(TRUE), <<Ex(I(1))>>, <<Ex(St("a"))>>), If2(Bo(TRUE), <<Ex(I(1))>>, <<Ex(I(2))>>), "decl-type"),
   EM("void-arg-typed", "int", Call(V(GIdI), <<Call(V(GVd), <<I(1)>>)>>), Call(V(GIdI), <<Call(V(GInc), <<I(1)>>)>>), "void-not-storable"),
   \* ---- statement mismatches
   SM("def-mut-annot", <<DefM(320, TInt, St("s"))>>, <<DefM(320, TInt, I(1))>>, "decl-type", TRUE),
@@ -157,6 +168,9 @@ MM == <<
   SM("muleq-field-str", <<DefC(320, TName("FI"), BlobL("FI", <<FI("v", I(1))>>)), Asg("*=", Fld(V(320), "v"), St("s"))>>,
      <<DefC(320, TName("FI"), BlobL("FI", <<FI("v", I(1))>>)), Asg("*=", Fld(V(320), "v"), I(4))>>, "assign-type", FALSE),
   SM("field-init-stmt", <<DefC(320, TName("FS"), BlobL("FS", <<FI("v", I(1))>>))>>, <<DefC(320, TName("FS"), BlobL("FS", <<FI("v", St("s"))>>))>>, "field-type", TRUE),
+  SM("ret-value-void-fn", <<Ex(Thunk(TVoid, <<Ret(St("s"))>>))>>, <<Ex(Thunk(TVoid, <<Ret0>>))>>, "ret-type", FALSE),
+  SM("ret-value-void-fn-branch", <<Ex(Thunk(TVoid, <<Ex(If1(Bo(TRUE), <<Ret(St("s"))>>))>>))>>,
+     <<Ex(Thunk(TVoid, <<Ex(If1(Bo(TRUE), <<Ret0>>))>>))>>, "ret-type", FALSE),
   SM("if-cond-int", <<Ex(If1(I(1), <<Asg("=", V(GG), I(2))>>))>>, <<Ex(If1(Bo(TRUE), <<Asg("=", V(GG), I(2))>>))>>, "cond-bool", FALSE),
   SM("elif-cond-str", <<Ex(If(<<ArmC(Bo(FALSE), <<Asg("=", V(GG), I(2))>>), ArmC(St("a"), <<Asg("=", V(GG), I(3))>>)>>))>>,
      <<Ex(If(<<ArmC(Bo(FALSE), <<Asg("=", V(GG), I(2))>>), ArmC(Bo(TRUE), <<Asg("=", V(GG), I(3))>>)>>))>>, "cond-bool", FALSE),
@@ -171,3 +185,190 @@ MM == <<
 >>
 NM == Len(MM)
 Kinds == {MM[i].kind : i \in 1..NM}
+
+---------------------------------------------------------------------------
+(* Contexts.  Apply(c, p, t, l): context c around payload p (an expression of type t, or a statement
+   sequence) at chain position l (fresh binder ids 20*l + j).  Names of the property's list:
+     global initialiser = global / globalinfer / gdef     function body statement = gfn / gfnuncalled / gvoidfn / start
+     closure body = closure / voidclosure / iife / fntail if-branch = ifbranch / thenval     else-branch = elsebranch / elseval
+     elif condition = elifcond / stmtelifcond             (if condition = ifcond / stmtifcond)   elif-branch = elifbranch
+     case arm = casearm / armval    case else = caseelse / caseelseval    loop body = loopbody     loop condition = loopcond
+     call argument = callarg / printarg   blob field initialiser = blobfield   list element = listelem
+     tuple element = tupleelem (indexed) / tuplelit (stored)
+     unused expression statement = unused    operand of a larger expression = operandL / operandR
+     return expression = retexpr   body of a function passed as argument = fnargbody   blob method body = method
+     (further: defannot / definfer = initialiser of a local variable, asgrhs = right-hand side of an assignment, block) *)
+EE == {"operandL", "operandR", "callarg", "tupleelem", "retexpr", "fntail", "thenval", "elseval", "armval", "caseelseval"}
+EEbool == {"ifcond", "elifcond"}
+ES == {"unused", "defannot", "definfer", "listelem", "tuplelit", "blobfield", "asgrhs", "printarg"}
+ESbool == {"loopcond", "stmtifcond", "stmtelifcond"}
+SS == {"ifbranch", "elsebranch", "elifbranch", "casearm", "caseelse", "loopbody", "block", "closure", "voidclosure",
+       "fnargbody", "method"}
+SE == {"iife"}
+TopS == {"start", "gfn", "gfnuncalled", "gvoidfn"}
+TopE == {"global", "globalinfer"}
+TopD == {"gdef"}
+Inner == EE \cup EEbool \cup ES \cup ESbool \cup SS \cup SE
+Tops == TopS \cup TopE \cup TopD
+Contexts == Inner \cup Tops
+CanonTops == {"start", "global"}     \* the tops used below chains of length 3
+
+\* sorts: "E" expression, "S" statement sequence, "SD" a statement sequence that is one definition
+Fits(c, s, t) ==
+  \/ c \in EE \cup ES \cup TopE /\ s = "E"
+  \/ c \in EEbool \cup ESbool /\ s = "E" /\ t = "bool"
+  \/ c \in SS \cup SE \cup TopS /\ s \in {"S", "SD"}
+  \/ c \in TopD /\ s = "SD"
+OutSort(c) == IF c \in EE \cup EEbool \cup SE THEN "E" ELSE "S"
+OutTy(c, t) == IF c \in {"operandL", "operandR"} /\ t = "list" THEN "bool"
+               ELSE IF c \in EEbool \cup SE THEN "int"
+               ELSE IF c \in EE THEN t ELSE "-"
+
+Cond == Bin(">", V(GG), I(0))
+Cond2 == Bin("<", V(GG), I(100))
+StartDef(body) == DefN(GStart, "const", TNone, Fn(<<>>, TVoid, body), "start")
+SetG == <<Asg("=", V(GG), I(2))>>
+
+Apply(c, p, t, l) ==
+  LET b == 20 * l
+      NoVal == <<DefC(b + 2, TInt, I(0))>>      \* a branch without a value
+      d == Dflt(t)
+  IN
+  CASE c = "operandL" -> (CASE t = "int" -> Bin("+", p, I(1)) [] t = "str" -> Bin("+", p, St("z"))
+                            [] t = "bool" -> Bin("and", p, Bo(TRUE)) [] t = "list" -> Bin("==", p, Lst(<<I(1)>>)))
+    [] c = "operandR" -> (CASE t = "int" -> Bin("*", I(2), p) [] t = "str" -> Bin("+", St("z"), p)
+                            [] t = "bool" -> Bin("or", Bo(FALSE), p) [] t = "list" -> Bin("!=", Lst(<<I(1)>>), p))
+    [] c = "callarg" -> Call(V(IdOf(t)), <<p>>)
+    [] c = "tupleelem" -> Idx(Tup(<<I(0), p>>), 1)
+    [] c = "retexpr" -> Thunk(Ty(t), <<Ret(p)>>)
+    [] c = "fntail" -> Thunk(Ty(t), <<Ex(p)>>)
+    [] c = "thenval" -> If2(Cond, <<Ex(p)>>, <<Ex(d)>>)
+    [] c = "elseval" -> If2(Cond, <<Ex(d)>>, <<Ex(p)>>)
+    [] c = "armval" -> CaseT(Var1("E", "X", I(1)), <<CArmB("X", b + 1, <<Ex(p)>>), CArm("Y", <<Ex(d)>>)>>)
+    [] c = "caseelseval" -> CaseE(Var0("E", "Y"), <<CArmB("X", b + 1, <<Ex(d)>>)>>, <<Ex(p)>>)
+    [] c = "ifcond" -> If2(p, <<Ex(I(1))>>, <<Ex(I(2))>>)
+    [] c = "elifcond" -> If(<<ArmC(Cond, <<Ex(I(1))>>), ArmC(p, <<Ex(I(2))>>), ArmE(<<Ex(I(3))>>)>>)
+    \* expression -> statements
+    [] c = "unused" -> <<Ex(p)>>
+    [] c = "defannot" -> <<DefM(b + 1, Ty(t), p)>>
+    [] c = "definfer" -> <<DefC(b + 1, TNone, p)>>
+    [] c = "listelem" -> <<DefC(b + 1, TList(Ty(t)), Lst(<<d, p>>))>>
+    [] c = "tuplelit" -> <<DefC(b + 1, TNone, Tup(<<d, p>>))>>
+    [] c = "blobfield" -> <<DefC(b + 1, TName(FieldBlob(t)), BlobL(FieldBlob(t), <<FI("v", p)>>))>>
+    [] c = "asgrhs" -> <<DefM(b + 1, Ty(t), d), Asg("=", V(b + 1), p)>>
+    [] c = "printarg" -> <<Print(p)>>
+    [] c = "loopcond" -> <<Loop(p, <<Break>>)>>
+    [] c = "stmtifcond" -> <<Ex(If1(p, SetG))>>
+    [] c = "stmtelifcond" -> <<Ex(If(<<ArmC(Cond, SetG), ArmC(p, SetG)>>))>>
+    \* statements -> statements
+    [] c = "ifbranch" -> <<Ex(If1(Cond, p))>>
+    [] c = "elsebranch" -> <<Ex(If2(Cond, NoVal, p))>>
+    [] c = "elifbranch" -> <<Ex(If(<<ArmC(Cond, NoVal), ArmC(Cond2, p)>>))>>
+    [] c = "casearm" -> <<Ex(CaseT(Var1("E", "X", I(1)), <<CArmB("X", b + 1, p), CArm("Y", NoVal)>>))>>
+    [] c = "caseelse" -> <<Ex(CaseE(Var0("E", "Y"), <<CArmB("X", b + 1, NoVal)>>, p))>>
+    [] c = "loopbody" -> <<DefM(b + 1, TInt, I(0)), Loop(Bin("<", V(b + 1), I(1)), p \o <<Asg("+=", V(b + 1), I(1))>>)>>
+    [] c = "block" -> <<Block(p)>>
+    [] c = "closure" -> <<DefC(b + 1, TNone, Fn(<<>>, TInt, p \o <<Ex(I(0))>>)), Ex(Call(V(b + 1), <<>>))>>
+    [] c = "voidclosure" -> <<DefC(b + 1, TNone, Fn(<<>>, TVoid, p)), Ex(Call(V(b + 1), <<>>))>>
+    [] c = "fnargbody" -> <<Ex(Call(V(GApply), <<Fn(<<P(b + 1, TInt)>>, TInt, p \o <<Ex(V(b + 1))>>), I(1)>>))>>
+    [] c = "method" -> <<DefC(b + 1, TName("M"),
+                              BlobL("M", <<FI("n", I(3)), FI("run", Fn(<<>>, TInt, p \o <<Ex(Fld(Self, "n"))>>))>>)),
+                         Ex(Call(Fld(V(b + 1), "run"), <<>>))>>
+    \* statements -> expression
+    [] c = "iife" -> Thunk(TInt, p \o <<Ex(I(0))>>)
+    \* tops: payload -> the top-level nodes that follow the Prelude
+    [] c = "start" -> <<StartDef(p)>>
+    [] c = "gfn" -> <<DefN(GF, "const", TNone, Fn(<<P(b + 1, TInt)>>, TInt, p \o <<Ex(V(b + 1))>>), "gf"),
+                      StartDef(<<Print(Call(V(GF), <<I(1)>>))>>)>>
+    [] c = "gfnuncalled" -> <<DefN(GF, "const", TNone, Fn(<<P(b + 1, TInt)>>, TInt, p \o <<Ex(V(b + 1))>>), "gf"),
+                              StartDef(<<Print(I(0))>>)>>
+    [] c = "gvoidfn" -> <<DefN(GF, "const", TNone, Fn(<<>>, TVoid, p), "gf"), StartDef(<<Ex(Call(V(GF), <<>>))>>)>>
+    [] c = "global" -> <<DefN(GRes, "const", Ty(t), p, "res"), StartDef(<<Print(V(GRes))>>)>>
+    [] c = "globalinfer" -> <<DefN(GRes, "mut", TNone, p, "res"), StartDef(<<Print(V(GRes))>>)>>
+    [] c = "gdef" -> p \o <<StartDef(<<Print(I(0))>>)>>
+
+\* Syntax fact, not a typing matter: `X v ->` may be followed by an optional `do`, so a do-block cannot be the
+\* first statement of a case arm / case else (its `end` would close the arm).
+Nestable(inner, outer) == ~(inner = "block" /\ outer \in {"casearm", "caseelse"})
+
+\* all chains of exactly n contexts (innermost first) around a payload of sort s / type t that end in a top of `tops`
+RECURSIVE Chains(_, _, _, _)
+Chains(s, t, n, tops) ==
+  IF n = 1 THEN {<<c>> : c \in {x \in tops : Fits(x, s, t)}}
+  ELSE UNION {{<<c>> \o rest : rest \in {r \in Chains(OutSort(c), OutTy(c, t), n - 1, tops) : Nestable(c, r[1])}}
+              : c \in {x \in Inner : Fits(x, s, t)}}
+
+Sort0(m) == IF m.sort = "S" /\ m.isdef THEN "SD" ELSE m.sort
+PathsFor(m, D) ==
+  UNION {Chains(Sort0(m), m.ty, n, Tops) : n \in 1..(IF D < 2 THEN D ELSE 2)}
+  \cup (IF D >= 3 THEN Chains(Sort0(m), m.ty, 3, CanonTops) ELSE {})
+
+\* a case id is <<index into MM, chain>>
+CaseIds(D) == UNION {{<<i, path>> : path \in PathsFor(MM[i], D)} : i \in 1..NM}
+
+RECURSIVE Wrap(_, _, _, _)
+Wrap(path, j, p, t) ==
+  IF j = Len(path) THEN Apply(path[j], p, t, j)
+  ELSE Wrap(path, j + 1, Apply(path[j], p, t, j), OutTy(path[j], t))
+
+BaseProgram(id) == Wrap(id[2], 1, MM[id[1]].base, MM[id[1]].ty)
+PlantedProgram(id) == Wrap(id[2], 1, MM[id[1]].planted, MM[id[1]].ty)
+
+---------------------------------------------------------------------------
+(* Definiteness.  Not a type system: for the mismatches whose planted form is an operator applied to
+   literals, or a list of literals, the operator table below decides that the planted form violates the
+   rule and the base does not.  For all others the table MM states the rule (Rule(kind)). *)
+Num == {"int", "float"}
+LitKinds == {"int", "float", "str", "bool"}
+IsLit(e) == e.k \in LitKinds \/ (e.k = "list" /\ \A j \in 1..Len(e.es) : e.es[j].k \in LitKinds)
+LitTy(e) == e.k
+OpForm(e) == \/ e.k = "bin" /\ IsLit(e.l) /\ IsLit(e.r)
+             \/ e.k = "un" /\ IsLit(e.a)
+ListForm(e) == e.k = "list" /\ \A j \in 1..Len(e.es) : e.es[j].k \in LitKinds
+OpOk(e) ==
+  IF e.k = "bin" THEN
+    LET a == LitTy(e.l)
+        b == LitTy(e.r) IN
+    CASE e.op = "+" -> a = b /\ a \in {"int", "float", "str"}
+      [] e.op \in {"-", "*"} -> a = b /\ a \in Num
+      [] e.op \in {"==", "!="} -> a = b
+      [] e.op \in {"<", ">", "<=", ">="} -> (a \in Num /\ b \in Num) \/ (a = "str" /\ b = "str")
+      [] e.op \in {"and", "or"} -> a = "bool" /\ b = "bool"
+  ELSE IF e.op = "not" THEN LitTy(e.a) = "bool" ELSE LitTy(e.a) \in Num
+ListOk(e) == \A j \in 1..Len(e.es) : e.es[j].k = e.es[1].k
+
+Decidable(e) == OpForm(e) \/ ListForm(e)
+FormOk(e) == IF OpForm(e) THEN OpOk(e) ELSE ListOk(e)
+Definite(m) == (m.sort = "E" /\ Decidable(m.planted)) => ~FormOk(m.planted)
+WellTypedBase(m) == (m.sort = "E" /\ Decidable(m.base)) => FormOk(m.base)
+Rule(kind) == LET i == CHOOSE j \in 1..NM : MM[j].kind = kind IN MM[i].rule
+
+(* What the compiler must do with a case *)
+Expect == [base |-> "ok", planted |-> "err"]
+\* the verdict on one recorded observation [base, planted, nerr, bytes]; "ok" = conforms
+Verdict(r) ==
+  IF r.base # Expect.base THEN "base-rejected"              \* generator problem, not a verdict on the property
+  ELSE IF r.planted = "panic" THEN "panic"
+  ELSE IF r.planted = "ok" THEN "planted-accepted"
+  ELSE IF r.bytes # 0 THEN "bytes-written"
+  ELSE IF r.nerr < 1 THEN "no-error-reported"
+  ELSE "ok"
+
+(* Spec-level sanity of the universe (checked by TLC as ASSUMEs of MC_Mismatch) *)
+KindsDistinct == \A i, j \in 1..NM : MM[i].kind = MM[j].kind => i = j
+RulesKnown == \A i \in 1..NM : MM[i].rule \in Rules
+AllRulesUsed == \A r \in Rules : \E i \in 1..NM : MM[i].rule = r
+TypesKnown == \A i \in 1..NM : (MM[i].sort = "E" /\ MM[i].ty \in Types) \/ (MM[i].sort = "S" /\ MM[i].ty = "-")
+PlantedDiffers == \A i \in 1..NM : MM[i].planted # MM[i].base
+AllDefinite == \A i \in 1..NM : Definite(MM[i]) /\ WellTypedBase(MM[i])
+SomeDecidable == Cardinality({i \in 1..NM : MM[i].sort = "E" /\ Decidable(MM[i].planted)}) >= 12
+\* every type-compatible (context, mismatch) cell is inhabited: the mismatch occurs with that context innermost
+Compatible(c, m) == Fits(c, Sort0(m), m.ty)
+CellsInhabited(ids) ==
+  LET cells == {<<id[1], id[2][1]>> : id \in ids} IN
+  \A i \in 1..NM : \A c \in Contexts : Compatible(c, MM[i]) => <<i, c>> \in cells
+\* every context is compatible with some mismatch
+ContextsUsed == \A c \in Contexts : \E i \in 1..NM : Compatible(c, MM[i])
+\* in every case the planted program differs from the base program
+ProgramsDiffer(ids) == \A id \in ids : PlantedProgram(id) # BaseProgram(id)
+=============================================================================
